@@ -131,6 +131,11 @@ def judge(case) -> Outcome:
         out.fail("c05.reference_raised", f"{tag}: {type(e).__name__}: {msg[:200]}")
         return out
     refs = [(dense(p), colnames(p)) for p in flat(ref)]
+    try:
+        with quiet():
+            ref_index = [list(p.index) for p in flat(model_matrix(f, df, output="pandas", context={}, **kw, **dk()))]
+    except Exception:  # noqa: BLE001  (judged as a path below)
+        ref_index = None
     paths = []
     for output in ("pandas", "numpy", "sparse"):
         paths.append((f"pandas/model_matrix/{output}", lambda o=output: model_matrix(f, df, output=o, context={}, **kw, **dk())))
@@ -155,6 +160,12 @@ def judge(case) -> Outcome:
         paths.append((f"pandas/materializer(matrix)/{output}", lambda o=output: PandasMaterializer(df).get_model_matrix(ref, output=o, **dk())))
         # the same columns handed over as a plain mapping name -> column
         paths.append((f"dict/model_matrix/{output}", lambda o=output: model_matrix(f, {c: df[c] for c in df.columns}, output=o, context={}, **kw, **dk())))
+    # the frame reaches the library inside a transparent wrapper (a pandas-output model matrix used as data for a second stage)
+    from formulaic.model_matrix import ModelMatrix
+
+    for output in ("pandas", "numpy"):
+        paths.append((f"pandas/wrapped_frame/model_matrix/{output}", lambda o=output: model_matrix(f, ModelMatrix(df), output=o, context={}, **kw, **dk())))
+    paths.append(("pandas/wrapped_frame/Formula/pandas", lambda: Formula(f).get_model_matrix(ModelMatrix(df), output="pandas", context={}, **kw, **dk())))
     paths.append(("dict/Formula/numpy", lambda: Formula(f).get_model_matrix({c: df[c] for c in df.columns}, output="numpy", context={}, **kw, **dk())))
     for output in ("pandas", "numpy", "sparse", "narwhals"):
         paths.append((f"narwhals(pandas)/model_matrix/{output}", lambda o=output: model_matrix(f, df, output=o, materializer="narwhals", context={}, **kw, **dk())))
@@ -187,6 +198,12 @@ def judge(case) -> Outcome:
             if not same(M, R):
                 out.fail("c05.values_differ", f"{tag}: path {name}: values differ from the pandas/numpy reference (shape {M.shape} vs {R.shape}); first rows {M[:2].tolist()} vs {R[:2].tolist()}")
                 break
+        # row labels of pandas outputs built by the pandas materializer (whatever the entry point or wrapper)
+        if ref_index is not None and name.startswith(("pandas/", "dict/")) and name.endswith("/pandas") and len(parts) == len(ref_index):
+            for p, idx in zip(parts, ref_index):
+                if hasattr(p, "index") and not callable(p.index) and list(p.index) != idx:
+                    out.fail("c05.row_labels_differ", f"{tag}: path {name}: row labels {list(p.index)[:6]} vs {idx[:6]} from model_matrix on the same data")
+                    break
         out.see("paths_compared")
     return out
 
